@@ -434,7 +434,10 @@ def check_frame(acc, fv, frame, payload_cc, sample=False, captured=False):
         want["target_radio_id"] = fv["dst"]
     if payload_cc is not None and fv["call_type"] not in WAKEUP_CALLS and fv["slot"] not in (0xD, 0xE):
         want["burst_colour_code"] = payload_cc
-    if not captured or fv["call_type"] not in WAKEUP_CALLS or fv["slot"] == 0xD:
+    if fv["call_type"] in WAKEUP_CALLS and fv["slot"] != 0xD:
+        # a wake-up call announced around a voice / sync payload: the statement only asks that both paths build the same class
+        pass
+    elif not captured or fv["call_type"] not in WAKEUP_CALLS or fv["slot"] == 0xD:
         want["class"] = {0xE: "HyteraIPSCSync", 0xD: "HyteraIPSCWakeup"}.get(fv["slot"], "Burst")
     flagged = set()
     for path, o in (("raw_bytes_path", o_raw), ("generic_parser_path", o_kai)):
@@ -569,8 +572,8 @@ def kind_pairs(payloads):
     out = []
     for i, (slot, label, hx) in enumerate(payloads):
         for c in CALL_TYPES:
-            if c in WAKEUP_CALLS and slot != 0xD:
-                continue
+            if c in WAKEUP_CALLS and slot != 0xD and not (0x7 <= slot <= 0xC or slot == 0xE):
+                continue  # (around voice / sync payloads, which carry no data SYNC pattern, the wake-up call types are well defined)
             out.append((i, c))
     return out
 
@@ -751,6 +754,47 @@ def run(only=None):
         }
         with contextlib.redirect_stdout(io.StringIO()):
             hist.poisoned_histories(s, funcs, bad_args, probes, nchildren=2)
+        s.done()
+
+    if not only or "parser_objects_made_other_ways" in only:
+        # the generic parser object can be made in other legitimate ways than from_bytes(frame): from a stream positioned inside a
+        # longer capture buffer, and it may outlive its stream
+        from kaitaistruct import KaitaiStream as _KS
+        import io as _io2
+        s = rep.sub("parser_objects_made_other_ways",
+                    "every captured frame F: parser object made (a) from a stream positioned at offset 72 of predecessor||F, (b) at offset 8 "
+                    "behind a record header, (c) by from_bytes and used after its stream was closed: Burst.from_hytera_ipsc gives the "
+                    "same observables and the same re-encoded 72 bytes as for the raw bytes of F")
+        caps = [bytes.fromhex(h) for h in CAPTURED]
+        for i, fr in enumerate(caps):
+            o_raw, b_raw = observe(fr)
+            ref = (tuple(sorted((k, repr(v)) for k, v in o_raw.items() if k != "repr")), b_raw.hytera_ipsc.as_ipsc_bytes() if b_raw is not None else None)
+
+            def made(how, fr=fr, i=i):
+                if how == "offset_72_of_two_frames":
+                    st = _KS(_io2.BytesIO(caps[i - 1] + fr))
+                    st.seek(72)
+                    return IpSiteConnectProtocol(st)
+                if how == "offset_8_behind_a_record_header":
+                    st = _KS(_io2.BytesIO(b"\x00\x01\x02\x03\x04\x05\x06\x07" + fr + b"\xff" * 5))
+                    st.seek(8)
+                    return IpSiteConnectProtocol(st)
+                obj = IpSiteConnectProtocol.from_bytes(fr)
+                obj._io.close()
+                return obj
+
+            for how in ("offset_72_of_two_frames", "offset_8_behind_a_record_header", "from_bytes_then_stream_closed"):
+                case = {"frame": fr.hex(), "parser_object": how}
+                try:
+                    o_k, b_k = observe(made(how))
+                    got = (tuple(sorted((k, repr(v)) for k, v in o_k.items() if k != "repr")), b_k.hytera_ipsc.as_ipsc_bytes() if b_k is not None else None)
+                    if got != ref:
+                        s.violation(f"parser_object_made_another_way_decodes_differently:{how}", case,
+                                    "a parser object for the same 72 bytes, made another legitimate way, gives another burst than the raw bytes")
+                except Exception as e:  # noqa: BLE001
+                    s.violation(f"exception_parser_object:{how}:" + exc_sig(e), case, repr(e))
+                s.case(nontrivial=True, calls=3, outcome=how, sample=case if len(s.samples) < 1 else None)
+        s.declared = 3 * len(caps)
         s.done()
 
     rep.bounds = {
